@@ -23,13 +23,13 @@ import (
 )
 
 type c13Stmt struct {
-	kind string // w r R xf pf e q Q qf b c rb
+	kind string // w r R xf pf e q Q qf p b c rb
 	tok  int
 }
 
 func (s c13Stmt) token() string {
 	switch s.kind {
-	case "w", "r", "R":
+	case "w", "r", "R", "p":
 		return s.kind + strconv.Itoa(s.tok)
 	}
 	return s.kind
@@ -37,7 +37,9 @@ func (s c13Stmt) token() string {
 
 func (s c13Stmt) isWrite() bool { return s.kind == "w" || s.kind == "r" || s.kind == "R" }
 func (s c13Stmt) isCtl() bool   { return s.kind == "b" || s.kind == "c" || s.kind == "rb" }
-func (s c13Stmt) fails() bool   { return s.kind == "xf" || s.kind == "pf" || s.kind == "qf" }
+func (s c13Stmt) fails() bool {
+	return s.kind == "xf" || s.kind == "pf" || s.kind == "qf" || s.kind == "p"
+}
 
 type c13Req struct {
 	path   string // exec | request
@@ -73,7 +75,7 @@ func c13ParseOp(line string) (c13Req, bool) {
 	if f[4] != "-" {
 		for _, t := range strings.Split(f[4], ",") {
 			s := c13Stmt{kind: t}
-			if len(t) > 1 && (t[0] == 'w' || t[0] == 'r' || t[0] == 'R') {
+			if len(t) > 1 && (t[0] == 'w' || t[0] == 'r' || t[0] == 'R' || (t[0] == 'p' && t != "pf")) {
 				if n, err := strconv.Atoi(t[1:]); err == nil {
 					s = c13Stmt{kind: t[:1], tok: n}
 				}
@@ -112,6 +114,17 @@ func c13SQL(s c13Stmt, v int) *command.Statement {
 		return &command.Statement{Sql: fmt.Sprintf("INSERT INTO t(tok) VALUES(%d) RETURNING tok", s.tok)}
 	case "R":
 		return &command.Statement{Sql: fmt.Sprintf("INSERT INTO t(tok) VALUES(%d) RETURNING tok", s.tok), ForceQuery: true}
+	case "p":
+		// not atomic on its own: fails part-way and leaves row tok behind unless an enclosing
+		// transaction is rolled back
+		switch v % 3 {
+		case 0: // several commands in one statement text; go-sqlite3 executes them in turn
+			return &command.Statement{Sql: fmt.Sprintf("INSERT INTO t(tok) VALUES(%d); INSERT INTO t(tok) VALUES(NULL)", s.tok)}
+		case 1:
+			return &command.Statement{Sql: fmt.Sprintf("INSERT OR FAIL INTO t(tok) VALUES(%d),(NULL)", s.tok)}
+		default:
+			return &command.Statement{Sql: fmt.Sprintf("INSERT INTO t(tok) VALUES(%d);\nINSERT INTO u(k) VALUES(0); INSERT INTO t(tok) VALUES(999999)", s.tok)}
+		}
 	case "xf":
 		return &command.Statement{Sql: c13ExecFail[v%len(c13ExecFail)]}
 	case "pf":
@@ -438,8 +451,11 @@ func c13GenStmts(r *vfRng, n int, allowCtl bool, nextTok *int) []c13Stmt {
 		case p < 50:
 			*nextTok++
 			s = c13Stmt{kind: []string{"r", "R"}[r.Intn(2)], tok: *nextTok}
-		case p < 60:
+		case p < 56:
 			s = c13Stmt{kind: "xf"}
+		case p < 60:
+			*nextTok++
+			s = c13Stmt{kind: "p", tok: *nextTok}
 		case p < 70:
 			s = c13Stmt{kind: "pf"}
 		case p < 77:
@@ -544,7 +560,7 @@ func c13RunCase(ops []string, rep *vfReport) []string {
 }
 
 func TestVerifC13(t *testing.T) {
-	rep := vfNewReport("C13", "generated cases: fresh WAL database, 1-3 requests of 1-8 statements (writes, RETURNING with/without ForceQuery, constraint failures incl. a multi-row statement failing on its last row, prepare failures, empty, queries, failing query, BEGIN/COMMIT/ROLLBACK) × Transaction on/off × RollbackOnError on/off × db.Execute / db.Request; a request is non-trivial when it has ≥2 statements one of which fails; distinct by abstract request line")
+	rep := vfNewReport("C13", "generated cases: fresh WAL database, 1-3 requests of 1-8 statements (writes, RETURNING with/without ForceQuery, constraint failures incl. a multi-row statement failing on its last row, statements that are not atomic on their own - several commands in one text, INSERT OR FAIL - failing part-way, prepare failures, empty, queries, failing query, BEGIN/COMMIT/ROLLBACK) × Transaction on/off × RollbackOnError on/off × db.Execute / db.Request; a request is non-trivial when it has ≥2 statements one of which fails; distinct by abstract request line")
 	defer rep.Write()
 
 	if ops, ok := vfReplayOps(); ok {
@@ -561,9 +577,12 @@ func TestVerifC13(t *testing.T) {
 		{"reset", "req exec 0 1 b,w1,pf,w2,c"},
 		{"reset", "req request 0 1 b,w1,xf,w2,c"},
 		{"reset", "req request 1 0 w1,xf,w2", "req request 1 0 w3,R4,q"},
+		// a transaction holding exactly one statement which is not atomic on its own
+		{"reset", "req exec 1 0 p1"}, {"reset", "req request 1 0 p1"}, {"reset", "req exec 1 1 p1", "req request 1 0 p2", "req exec 0 0 p3,w4"},
+		{"reset", "req exec 1 0 w1,p2,w3"}, {"reset", "req request 0 1 b,w1,p2,c"},
 	}
 	r := vfNewRng(13)
-	cases := vfScale(500, 30000)
+	cases := vfScale(350, 30000)
 	var segOps, segImpl [][]string
 	for _, c := range corpus {
 		segOps = append(segOps, c)
